@@ -49,7 +49,10 @@ type c13Case struct {
 
 var c13Calls = []string{"sessionless-command", "new-session", "new-session-discovery", "session-command", "session-close", "retrieve-sdrs", "retrieve-cipher-suites", "dcmi-sensor-info",
 	// the same calls at a later point of an object's life
-	"session-close-after-failed-close", "new-session-with-3-open", "new-session-with-4-open", "new-session-with-6-open"}
+	"session-close-after-failed-close", "new-session-with-3-open", "new-session-with-4-open", "new-session-with-6-open",
+	// a handshake that ends in "incorrect password" (whatever the library does to
+	// tidy up the half-open session is bound by the caller's context too)
+	"new-session-wrong-password"}
 var c13Patterns = []string{"black-hole", "late-reply", "garbage", "temporary-code", "truncated",
 	// a healthy BMC whose SDR repository reports a newer timestamp at every look
 	// (only meaningful for retrieve-sdrs; honest elsewhere)
@@ -63,6 +66,8 @@ var c13Patterns = []string{"black-hole", "late-reply", "garbage", "temporary-cod
 	"garbage-long-pad-run",
 	// handshake replies (and response bodies) one byte short
 	"truncated-by-one",
+	// the honest reply with both IPMI message checksums wrong in ways that cancel
+	"garbage-compensating-checksums",
 	// a healthy BMC whose cipher-suite record data is followed by zero padding
 	"cipher-suite-list-zero-padded"}
 
@@ -97,6 +102,16 @@ func c13Answer(p string) env.Answer {
 	case "garbage-long-pad-run":
 		return env.Raw("garbage-long-pad-run", func(t *env.Transport, rx *ref.Rx) []byte {
 			return cat([]byte{0x06, 0x00, 0xFF, 0x07, 0x06, 0x40, 1, 0, 0, 0, 2, 0, 0, 0, 4, 0, 9, 9, 9, 9}, pattern(300, 0xFF, 0), []byte{0x02, 0x07}, pattern(12, 0x11, 1))
+		})
+	case "garbage-compensating-checksums":
+		return env.Raw("garbage-compensating-checksums", func(t *env.Transport, rx *ref.Rx) []byte {
+			if rx == nil || rx.Msg == nil {
+				return nil // setup payloads carry no message: nothing arrives
+			}
+			m := ref.ResponseTo(rx.Msg, rx.CC, rx.Body)
+			m[2]++
+			m[len(m)-1]--
+			return t.BMC.WrapIPMI(rx.Sess, m)
 		})
 	case "truncated-by-one":
 		return env.Raw("truncated-by-one", func(t *env.Transport, rx *ref.Rx) []byte {
@@ -194,6 +209,10 @@ func c13Run(call string, conn *bmc.V2SessionlessTransport, password []byte, ctx 
 		_, err = conn.GetSystemGUID(c)
 	case "new-session", "new-session-with-3-open", "new-session-with-4-open", "new-session-with-6-open":
 		_, err = conn.NewV2Session(c, opts)
+	case "new-session-wrong-password":
+		o := *opts
+		o.Password = append([]byte("not-"), password...)
+		_, err = conn.NewV2Session(c, &o)
 	case "new-session-discovery":
 		o := *opts
 		o.CipherSuites = nil
@@ -460,6 +479,13 @@ func (u *udpBMC) serve() {
 				reply = u.bmc.Honest(rx)
 			case "garbage-long-pad-run":
 				reply = cat([]byte{0x06, 0x00, 0xFF, 0x07, 0x06, 0x40, 1, 0, 0, 0, 2, 0, 0, 0, 4, 0, 9, 9, 9, 9}, pattern(300, 0xFF, 0), []byte{0x02, 0x07}, pattern(12, 0x11, 1))
+			case "garbage-compensating-checksums":
+				if rx.Msg != nil {
+					m := ref.ResponseTo(rx.Msg, rx.CC, rx.Body)
+					m[2]++
+					m[len(m)-1]--
+					reply = u.bmc.WrapIPMI(rx.Sess, m)
+				}
 			case "truncated-by-one":
 				if rx.ReplyPayload != nil && len(rx.ReplyPayload) > 0 {
 					reply = ref.BuildPacket(rx.ReplyPType, false, 0, 0, rx.ReplyPayload[:len(rx.ReplyPayload)-1], nil)
